@@ -20,6 +20,9 @@ CLAIMED["C05"] = ("other", "language inclusion of the real compiled matcher agai
 CLAIMED["C17"] = ("other", "language equality of the two real compiled matchers (python-debian vs converted REUSE.toml glob), decided by z3 per pattern (all paths), patterns enumerated to a bound",
     "for every legal dep5 pattern over {a / * ? \\} up to length 4 (quick) / 5 (thorough) the dep5 matcher and the converted REUSE.toml matcher are compared as languages for ALL paths; two known findings ('?' and '*/') are listed and every other difference is a violation",
     "bounded in the pattern; content/ordering/command effects of the conversion are not yet under contract (see DESIGN 4.17)", "4.17")
+CLAIMED["C06"] = ("proof", CLAIMED["C12"][1],
+    "set-algebra contracts on the real bodies ('+' helpers, used/unused getters, classification loops of FileReport.generate, bad/deprecated loop of ProjectReport.generate, _identifier_of_license), lemmas for the cross-consistency of missing/unused/bad taken from the statement, and a finite exhaustive obligation over the bundled SPDX lists; one listed known finding (LicenseRef- classed bad)",
+    "assumes the license_map invariant established by _find_licenses (loop body not under contract), Licensing.license_keys, pathlib suffix/stem/name", "4.6")
 NOT_YET = "check not built yet in this session (work in progress; see DESIGN.md section 4 for the planned contracts)"
 props = [json.loads(l) for l in open(os.path.join(V, "properties.jsonl"))]
 checks, na = [], []
